@@ -44,6 +44,8 @@ pub use nucleo_matcher::{chars, Config, Matcher, Utf32Str, Utf32String};
 mod boxcar;
 #[cfg(nucleo_verif)]
 pub mod verif;
+#[cfg(nucleo_verif)]
+pub mod verif_facade;
 mod par_sort;
 pub mod pattern;
 mod worker;
